@@ -144,7 +144,7 @@ func (p *Prog) revisionBytesRec(v ssa.Value, depth int) (revBytes, bool) {
 	if depth > 6 {
 		return revBytes{}, false
 	}
-	v = resolve(v)
+	v = resolveUp(v)
 	switch x := v.(type) {
 	case *ssa.Slice:
 		if al, ok := x.X.(*ssa.Alloc); ok {
@@ -239,7 +239,7 @@ type keyProv struct {
 // the (unique) static call site's actual when the function has exactly one caller, otherwise left unknown.
 func (p *Prog) keyProvenance(v ssa.Value) keyProv {
 	r := p.roles()
-	v = p.resolveDeep(v)
+	v = resolveUp(p.resolveDeep(v))
 	switch x := v.(type) {
 	case *ssa.Call:
 		if r.is(x, r.EncRev) {
